@@ -81,7 +81,7 @@ Definition ex_loud_assert : program := ex_loud (EBin BLt (ENum 2) (ENum 1)).
 Ltac loud_small p :=
   split;
   [ unfold source_ok; cbn [pfns pglobals p ex_loud]; repeat split;
-    [ repeat constructor; cbn; repeat split; reflexivity
+    [ repeat constructor; cbn; repeat split; try reflexivity; try discriminate
     | constructor
     | constructor
     | unfold VM_MAX_GLOBALS_N; cbn [length]; lia ]
